@@ -190,6 +190,11 @@ class _Traceback:
     def format_exc(*a, **k):
         return ''
 
+    def __getattr__(self, name):
+        # everything else behaves like the real module (a change to the daemon may legitimately use more of it)
+        import traceback as _real
+        return getattr(_real, name)
+
 
 _orig_process_message = IkeSa.process_message
 _orig_check_in_states = IkeSa._check_in_states
@@ -253,7 +258,7 @@ def install():
     A.ikesacontroller.socket = _SocketModule
     A.ikesacontroller.select = _fake_select
     A.xfrm.Xfrm.get_socket = classmethod(lambda cls: CUR['ep']._new_xfrm_sock())
-    A.ikesa.traceback = _Traceback
+    A.ikesa.traceback = _Traceback()
     A.ikesa.DiffieHellman = _RecordingDH
     IkeSa.process_message = _process_message
     IkeSa._check_in_states = _check_in_states
